@@ -6,7 +6,7 @@ CONSTANTS
   TRows <- AllT
   ERows <- AllE
   IRows <- AllI
-  EndRows <- FewEnd
+  EndRows <- QEnd2
 SPECIFICATION Spec
 INVARIANTS TypeOK DefinitionsAgree VitMeaning FwdMeaning BwdMeaning VitResult FwdResult BwdResult Final NoStall
 PROPERTY Progress
